@@ -408,3 +408,223 @@ def ctable_problems(root, c_table):
         for m in sorted(meths - listed):
             problems.append("C++ method %s::%s (%s) is not in the C entry-point table of the extractor" % (cls, m, rel))
     return problems
+
+
+# ------------------------------------------------------------------------------------------------------
+# C / C++ entry points: which ARRAY ARGUMENTS does each entry point write?  (fail-closed source scan)
+#
+# The extractor's C_TABLE says, per entry point, which positional arguments are written; everything else is
+# assumed to be read "through const-style accessors only" (property anchors: htmc.cc, cosmolib_pywrap.c,
+# chist_pywrap.c).  This scanner re-derives that table from the C sources of the scratch build:
+#   * objects  = PyObject* parameters (C++ methods) / the &obj arguments of PyArg_ParseTuple (C wrappers), by position;
+#   * pointers = variables assigned from PyArray_DATA(obj) / PyArray_GETPTR1..4(obj, ..) (casts ignored);
+#   * a WRITE  = `p[..] op=`, `*p op=`, `(*p)++`, `*(T*)PyArray_GETPTRn(obj, ..) op=`, `((T*)PyArray_DATA(obj))[..] op=`,
+#                or p / PyArray_DATA(obj) passed to memcpy/memset/memmove/fread/sscanf/fscanf/qsort;
+#   * an ESCAPE = a pointer or an array object handed to any other function that is not in READ_ONLY_CALLEES, or stored
+#                in a member / global: reported as a problem (the scanner does not follow it).
+# It is a syntactic scan (no preprocessor, no aliasing through structs): listed as trusted, validated by the dynamic
+# run, which observes the real memory.
+# ------------------------------------------------------------------------------------------------------
+C_SOURCES = {
+    # file -> (style, mapping of C function / method name -> C_TABLE key or None to use the PyMethodDef table)
+    "esutil/stat/chist_pywrap.c": ("pywrap", "_chist"),
+    "esutil/cosmology/cosmolib_pywrap.c": ("pywrap", "_cosmolib.cosmo"),
+    "esutil/htm/htmc.cc": ("cxx", "htmc"),
+}
+WRITERS = {"memcpy", "memset", "memmove", "fread", "sscanf", "fscanf", "qsort", "strcpy", "strncpy", "sprintf", "snprintf"}
+READ_ONLY_CALLEES = {
+    # numpy C-API accessors / queries that do not write the array's data
+    "PyArray_SIZE", "PyArray_DATA", "PyArray_GETPTR1", "PyArray_GETPTR2", "PyArray_GETPTR3", "PyArray_GETPTR4", "PyArray_NDIM", "PyArray_DIM",
+    "PyArray_DIMS", "PyArray_STRIDES", "PyArray_STRIDE", "PyArray_TYPE", "PyArray_ITEMSIZE", "PyArray_NBYTES", "PyArray_Check",
+    "PyArray_ISCONTIGUOUS", "PyArray_DESCR", "PyArray_ISCARRAY", "PyArray_ISCARRAY_RO", "PyArray_FLAGS", "Py_INCREF", "Py_XINCREF",
+    "Py_DECREF", "Py_XDECREF", "PyArg_ParseTuple", "Py_BuildValue", "PyTuple_SetItem", "PyTuple_SET_ITEM", "PyList_Append",
+    "PyObject_Print", "sizeof", "if", "while", "for", "switch", "return",
+}
+ALLOCATORS = ("PyArray_ZEROS", "PyArray_EMPTY", "PyArray_SimpleNew", "PyArray_NewLikeArray", "PyArray_New", "PyArray_FROM_OTF",
+              "PyArray_Zeros", "PyArray_Empty", "PyArray_NewCopy", "PyArray_FromAny", "PyArray_ContiguousFromAny")
+
+
+def _strip_c(txt):
+    txt = re.sub(r"/\*.*?\*/", " ", txt, flags=re.S)
+    txt = re.sub(r"//[^\n]*", " ", txt)
+    txt = re.sub(r'"(\\.|[^"\\])*"', '""', txt)
+    txt = re.sub(r"'(\\.|[^'\\])'", "' '", txt)
+    return txt
+
+
+def _functions(txt):
+    """[(name, params_text, body_text)] of every function DEFINITION at brace depth 0"""
+    out, i, n = [], 0, len(txt)
+    depth = 0
+    pos = 0
+    while pos < n:
+        ch = txt[pos]
+        if ch == "{":
+            if depth == 0:
+                # look back for `name ( params ) [throw (...)] [const]` directly before this brace
+                head = txt[max(0, pos - 1500):pos]
+                m = re.search(r"([A-Za-z_][\w:~]*)\s*\(([^()]*(?:\([^()]*\)[^()]*)*)\)\s*(?:const\s*)?(?:throw\s*\([^)]*\)\s*)?$", head, re.S)
+                j, d = pos + 1, 1
+                while j < n and d:
+                    d += {"{": 1, "}": -1}.get(txt[j], 0)
+                    j += 1
+                if m and m.group(1) not in ("if", "while", "for", "switch", "catch"):
+                    out.append((m.group(1), m.group(2), txt[pos + 1:j - 1]))
+                pos = j
+                continue
+        pos += 1
+    return out
+
+
+_ACC = r"PyArray_(?:DATA|GETPTR[1-4])\s*\(\s*(?:\(\s*PyArrayObject\s*\*\s*\)\s*)?(?:this\s*->\s*)?([A-Za-z_]\w*)"
+_ASSIGN_OP = r"(?:=(?!=)|\+=|-=|\*=|/=|%=|\|=|&=|\^=|<<=|>>=|\+\+|--)"
+
+
+def scan_function(params, body, style):
+    """-> (objs: {name: position or None}, writes: set of obj names, escapes: set of text)"""
+    objs = {}
+    if style == "cxx":
+        k = 0
+        for prm in [x.strip() for x in params.split(",") if x.strip()]:
+            m = re.match(r"(?:const\s+)?PyObject\s*\*\s*(\w+)$", prm)
+            if m:
+                objs[m.group(1)] = k
+            k += 1
+    else:
+        m = re.search(r"PyArg_ParseTuple\s*\(\s*args\s*,\s*(?:\(\s*char\s*\*\s*\)\s*)?\"\"((?:\s*,\s*&\s*\w+)*)\s*\)", body)
+        if m:
+            names = re.findall(r"&\s*(\w+)", m.group(1))
+            decl = set(re.findall(r"PyObject\s*\*\s*(\w+)", body))
+            decl |= set(re.findall(r",\s*\*\s*(\w+)\s*(?:=\s*NULL)?", " ".join(re.findall(r"PyObject\s*\*[^;]*;", body))))
+            for k, nm in enumerate(names):
+                if nm in decl:
+                    objs[nm] = k
+    # objects allocated here are outputs (fresh memory)
+    fresh = set()
+    for m in re.finditer(r"(\w+)\s*=\s*(?:\([^()]*\)\s*)?(%s)\s*\(" % "|".join(ALLOCATORS), body):
+        fresh.add(m.group(1))
+    # pointer variables derived from an object
+    ptr = {}
+    for m in re.finditer(r"(\w+)\s*=\s*(?:\([^()]*\)\s*)*" + _ACC, body):
+        ptr.setdefault(m.group(1), set()).add(m.group(2))
+    writes, escapes = set(), set()
+
+    def hit(obj, what):
+        if obj in fresh:
+            return
+        if obj in objs:
+            writes.add(obj)
+        elif obj in ("self",):
+            return
+        else:
+            # a member (this->ra) or a local that holds an argument object: resolve one level
+            escapes.add("write through %s (%s), which is not a parsed argument" % (obj, what))
+
+    for p, os_ in ptr.items():
+        pat = r"(?:\*\s*%s\b|\(\s*\*\s*%s\s*\)|\b%s\s*\[[^\]]*\])\s*%s" % (p, p, p, _ASSIGN_OP)
+        # exclude declarations `T *p = ...` : a `*p =` directly preceded by a type name is the initialisation of p itself
+        for m in re.finditer(pat, body):
+            pre = body[max(0, m.start() - 40):m.start()]
+            if re.search(r"[\w>]\s*$", pre) and m.group(0).lstrip().startswith("*") and not re.search(r"[;{}(,=]\s*$", pre):
+                continue
+            for o in os_:
+                hit(o, "pointer %s" % p)
+        if re.search(r"(?:\+\+|--)\s*\*\s*%s\b" % p, body):
+            for o in os_:
+                hit(o, "pointer %s" % p)
+    for m in re.finditer(r"\*\s*\(\s*[\w\s]+\*\s*\)\s*" + _ACC + r"[^;=]*?\)\s*" + _ASSIGN_OP, body):
+        hit(m.group(1), "direct GETPTR store")
+    for m in re.finditer(r"\(\s*\(\s*[\w\s]+\*\s*\)\s*" + _ACC + r"\s*\)\s*\)\s*\[[^\]]*\]\s*" + _ASSIGN_OP, body):
+        hit(m.group(1), "direct DATA store")
+    # calls that receive a pointer / an array object
+    for m in re.finditer(r"\b([A-Za-z_][\w:.>-]*)\s*\(([^;{}]*)\)", body):
+        callee, argtxt = m.group(1).split("::")[-1].split(".")[-1].split("->")[-1], m.group(2)
+        toks = set(re.findall(r"(?<![\w.>\[*])([A-Za-z_]\w*)(?!\s*[\[(\w])", re.sub(r"\*\s+", "*", argtxt)))   # `*p` passes a value
+        for t in toks:
+            tgt = None
+            if t in ptr:
+                tgt = ptr[t]
+            elif t in objs:
+                tgt = {t}
+            if not tgt:
+                continue
+            if callee in WRITERS:
+                first = argtxt.split(",")[0]
+                if re.search(r"\b%s\b" % t, first) or callee in ("sscanf", "fscanf"):
+                    for o in tgt:
+                        hit(o, "passed to %s" % callee)
+            elif callee not in READ_ONLY_CALLEES and not callee.startswith("PyArray_") and callee not in ALLOCATORS:
+                escapes.add("%s passed to %s(...)" % (t, callee))
+    # an argument object stored in a member / global
+    for o in objs:
+        if re.search(r"(?:this\s*->\s*\w+|self\s*->\s*\w+|\bm[A-Z]\w*)\s*=\s*(?:\([^()]*\)\s*)*%s\b" % o, body):
+            escapes.add("argument %s stored in a member" % o)
+    return objs, writes, escapes
+
+
+def c_scan(root):
+    """-> ({table key: sorted positions written}, problems)"""
+    found, problems = {}, []
+    for rel, (style, prefix) in C_SOURCES.items():
+        p = os.path.join(root, rel)
+        if not os.path.exists(p):
+            problems.append("C source %s not found" % rel)
+            continue
+        txt = _strip_c(open(p).read())
+        funcs = _functions(txt)
+        if style == "pywrap":
+            raw = open(p).read()
+            table = {c: py for py, c in re.findall(r"\{\s*\"(\w+)\"\s*,\s*\(PyCFunction\)\s*(\w+)", raw)}
+            if not table:
+                problems.append("no PyMethodDef table found in %s" % rel)
+            for name, params, body in funcs:
+                if name not in table:
+                    continue
+                objs, writes, esc = scan_function(params, body, style)
+                key = "%s.%s" % (prefix, table[name])
+                found[key] = sorted(objs[o] for o in writes)
+                for e in sorted(esc):
+                    problems.append("%s (%s): %s" % (key, rel, e))
+                if "PyArg_ParseTuple" in body and not objs and re.search(r"PyArray_", body):
+                    problems.append("%s (%s): uses the numpy C API but its argument objects could not be identified" % (key, rel))
+            missing = set(table) - {n for n, _, _ in funcs}
+            for c in sorted(missing):
+                problems.append("%s: C function %s of the method table has no definition the scanner can find" % (rel, c))
+        else:
+            for name, params, body in funcs:
+                if "::" not in name:
+                    continue
+                cls, meth = name.split("::")[-2:]
+                key = "%s.%s" % (prefix, cls) if meth == cls else "%s.%s.%s" % (prefix, cls, meth)
+                if meth.startswith("~"):
+                    continue
+                objs, writes, esc = scan_function(params, body, style)
+                found[key] = sorted(objs[o] for o in writes)
+                for e in sorted(esc):
+                    problems.append("%s (%s): %s" % (key, rel, e))
+    return found, problems
+
+
+# escapes reviewed by hand: the Matcher keeps references to the (ra, dec) arrays it was constructed with; every method of the
+# class is scanned, and a store through such a member (`this->ra`) would be reported ("not a parsed argument")
+ACCEPTED_ESCAPES = ("htmc.Matcher (esutil/htm/htmc.cc): argument ra_input stored in a member",
+                    "htmc.Matcher (esutil/htm/htmc.cc): argument dec_input stored in a member")
+
+
+def ctable_write_problems(root, c_table, accepted_escapes=ACCEPTED_ESCAPES):
+    found, problems = c_scan(root)
+    problems = [p for p in problems if not any(a in p for a in accepted_escapes)]
+    for key, pos in sorted(found.items()):
+        if key in c_table:
+            exp = c_table[key]
+        else:
+            star = key.rsplit(".", 1)[0] + ".*"
+            if star in c_table:
+                exp = c_table[star]
+            else:
+                problems.append("C entry point %s (found in the sources) is not in the C entry-point table" % key)
+                continue
+        extra = [k for k in pos if k not in exp]
+        if extra:
+            problems.append("C entry point %s WRITES its positional argument(s) %s; the C entry-point table allows only %s" % (key, extra, list(exp)))
+    return problems, found
